@@ -21,14 +21,14 @@ import (
 )
 
 type tqvScript struct {
-	chunks   [][]byte // successive Read results
-	failWith error    // returned once the chunks are used up
-	reads    int
+	chunks            [][]byte // successive Read results
+	failWith          error    // returned once the chunks are used up
+	reads             int
 	readsAfterFailure int
-	failed   bool
-	out      bytes.Buffer
-	closed   int
-	deadlines int
+	failed            bool
+	out               bytes.Buffer
+	closed            int
+	deadlines         int
 }
 
 func (c *tqvScript) Read(b []byte) (int, error) {
@@ -48,10 +48,12 @@ func (c *tqvScript) Read(b []byte) (int, error) {
 	c.chunks[0] = c.chunks[0][n:]
 	return n, nil
 }
-func (c *tqvScript) Write(b []byte) (int, error)        { return c.out.Write(b) }
-func (c *tqvScript) Close() error                       { c.closed++; return nil }
-func (c *tqvScript) LocalAddr() net.Addr                { return &net.TCPAddr{IP: net.IPv4(127, 0, 0, 1), Port: 49} }
-func (c *tqvScript) RemoteAddr() net.Addr               { return &net.TCPAddr{IP: net.IPv4(127, 0, 0, 1), Port: 4949} }
+func (c *tqvScript) Write(b []byte) (int, error) { return c.out.Write(b) }
+func (c *tqvScript) Close() error                { c.closed++; return nil }
+func (c *tqvScript) LocalAddr() net.Addr         { return &net.TCPAddr{IP: net.IPv4(127, 0, 0, 1), Port: 49} }
+func (c *tqvScript) RemoteAddr() net.Addr {
+	return &net.TCPAddr{IP: net.IPv4(127, 0, 0, 1), Port: 4949}
+}
 func (c *tqvScript) SetDeadline(t time.Time) error      { return nil }
 func (c *tqvScript) SetReadDeadline(t time.Time) error  { c.deadlines++; return nil }
 func (c *tqvScript) SetWriteDeadline(t time.Time) error { return nil }
@@ -140,10 +142,10 @@ func TestTqvWitness(t *testing.T) {
 	}
 	var ref []string
 	segs := map[string][][]byte{
-		"one write":            {stream},
-		"header / body cuts":   cut(stream, 12, 5, 200, 12, 7),
-		"byte by byte":         nil,
-		"cut inside a header":  cut(stream, 7, 30, 3),
+		"one write":           {stream},
+		"header / body cuts":  cut(stream, 12, 5, 200, 12, 7),
+		"byte by byte":        nil,
+		"cut inside a header": cut(stream, 7, 30, 3),
 	}
 	for i := range stream {
 		segs["byte by byte"] = append(segs["byte by byte"], stream[i:i+1])
